@@ -10,8 +10,8 @@ from mc.ref import cssdoc as D
 ID = 'C10'
 
 BOUNDS = {
-    'quick': dict(nodes=4, depth=3, rotations=12, layouts=D.LAYOUTS, big=0),
-    'thorough': dict(nodes=5, depth=3, rotations=12, layouts=D.LAYOUTS, big=6),
+    'quick': dict(nodes=4, depth=3, rotations=14, layouts=D.LAYOUTS, big=0),
+    'thorough': dict(nodes=5, depth=3, rotations=14, layouts=D.LAYOUTS, big=6),
 }
 NSH = 64
 
